@@ -1116,3 +1116,109 @@ def gen_getitem():
 
 
 GENERATORS = GENERATORS + (('Getitem', gen_getitem),)
+
+
+# ---------------------------------------------------------------------------------------------------------------------
+
+class UniqueTr:
+    """Methods of `tools.Unique` over the explicit state (seen, items); a raising statement returns the state reached so far."""
+
+    def __init__(self, names):
+        self.names = dict(names)
+
+    def name(self, node):
+        if isinstance(node, ast.Name) and node.id in self.names:
+            return self.names[node.id]
+        raise Decline('Unique: unsupported name %s' % ast.unparse(node))
+
+    def block(self, stmts, ind):
+        if not stmts:
+            return [ind + '.ok ⟨seen, items⟩']
+        st, rest = stmts[0], stmts[1:]
+        go = lambda *lines: [ind + l for l in lines] + self.block(rest, ind)        # noqa: E731
+        fail = lambda err: '.error (.%s, ⟨seen, items⟩)' % err                       # noqa: E731
+        if isinstance(st, ast.If):
+            t = st.test
+            if (isinstance(t, ast.Compare) and len(t.ops) == 1 and isinstance(t.ops[0], (ast.In, ast.NotIn))
+                    and ast.unparse(t.comparators[0]) == 'self._seen'):
+                c = 'seen.contains %s' % self.name(t.left)
+                if isinstance(t.ops[0], ast.NotIn):
+                    c = '!(%s)' % c
+            elif (isinstance(t, ast.Compare) and len(t.ops) == 1 and isinstance(t.ops[0], ast.NotEq)
+                    and isinstance(t.left, ast.Name) and t.left.id == 'idx' and isinstance(t.comparators[0], ast.Name)
+                    and t.comparators[0].id == 'new_index'):
+                c = '((idx : Int) != new_index)'
+            else:
+                raise Decline('Unique: unsupported condition %s' % ast.unparse(t))
+            if len(st.body) == 1 and isinstance(st.body[0], ast.Raise) and not st.orelse:
+                exc = st.body[0].exc
+                if not (isinstance(exc, ast.Call) and isinstance(exc.func, ast.Name) and exc.func.id == 'ValueError'):
+                    raise Decline('Unique: raises something else than ValueError')
+                return [ind + 'if %s then %s' % (c, fail('valueError')), ind + 'else'] + self.block(rest, ind + '  ')
+            if st.orelse:
+                raise Decline('Unique: if/else')
+            return ([ind + 'if %s then' % c] + self.block(list(st.body) + rest, ind + '  ') + [ind + 'else'] + self.block(rest, ind + '  '))
+        t = ast.unparse(st)
+        if isinstance(st, ast.Assign) and len(st.targets) == 1:
+            tgt, v = st.targets[0], st.value
+            if (isinstance(tgt, ast.Name) and tgt.id == 'idx' and isinstance(v, ast.Call) and ast.unparse(v.func) == 'self._items.index'
+                    and len(v.args) == 1):
+                return [ind + 'match lIndex items %s with' % self.name(v.args[0]), ind + '| none => ' + fail('valueError'),
+                        ind + '| some idx =>'] + self.block(rest, ind + '  ')
+            if (isinstance(tgt, ast.Subscript) and ast.unparse(tgt.value) == 'self._items' and ast.unparse(tgt.slice) == 'idx'):
+                return go('let items := lSet items idx %s' % self.name(v))
+            if (isinstance(tgt, ast.Subscript) and ast.unparse(tgt.value) == 'self._items' and isinstance(tgt.slice, ast.Call)
+                    and ast.unparse(tgt.slice.func) == 'self._items.index' and len(tgt.slice.args) == 1):
+                # the right-hand side is a plain name: the index look-up is what may raise
+                return [ind + 'match lIndex items %s with' % self.name(tgt.slice.args[0]), ind + '| none => ' + fail('valueError'),
+                        ind + '| some idx1 =>', ind + '  let items := lSet items idx1 %s' % self.name(v)] + self.block(rest, ind + '  ')
+            if (isinstance(tgt, ast.Name) and isinstance(v, ast.Call) and ast.unparse(v.func) == 'self._items.pop'
+                    and [ast.unparse(a) for a in v.args] == ['idx']):
+                self.names[tgt.id] = 'popped'
+                return go('let (popped, items) := lPop items idx')
+            raise Decline('Unique: unsupported assignment %s' % t)
+        if isinstance(st, ast.Expr) and isinstance(st.value, ast.Call) and not st.value.keywords:
+            f = ast.unparse(st.value.func)
+            a = st.value.args
+            if f == 'self._seen.add' and len(a) == 1:
+                return go('let seen := sAdd seen %s' % self.name(a[0]))
+            if f == 'self._seen.remove' and len(a) == 1:
+                return [ind + 'match sRemove seen %s with' % self.name(a[0]), ind + '| none => ' + fail('keyError'),
+                        ind + '| some seen =>'] + self.block(rest, ind + '  ')
+            if f == 'self._items.append' and len(a) == 1:
+                return go('let items := items ++ [%s]' % self.name(a[0]))
+            if f == 'self._items.remove' and len(a) == 1:
+                return [ind + 'match lRemove items %s with' % self.name(a[0]), ind + '| none => ' + fail('valueError'),
+                        ind + '| some items =>'] + self.block(rest, ind + '  ')
+            if f == 'self._items.insert' and len(a) == 2 and ast.unparse(a[0]) == 'new_index':
+                return go('let items := pyInsert items new_index %s' % self.name(a[1]))
+        raise Decline('Unique: unsupported statement %s' % t[:60])
+
+
+def gen_unique():
+    tree = _src('tools.py')
+    spec = [('add', ['self', 'item'], '(item : Name)', {'item': 'item'}),
+            ('discard', ['self', 'item'], '(item : Name)', {'item': 'item'}),
+            ('replace', ['self', 'item', 'new_item'], '(item new_item : Name)', {'item': 'item', 'new_item': 'new_item'}),
+            ('move', ['self', 'item', 'new_index'], '(item : Name) (new_index : Int)', {'item': 'item'})]
+    out = ['import FCA.Model.UniqueState',
+           '/- GENERATED by harness/extract2.py from tools.Unique in concepts/tools.py — do not edit.',
+           '   State = (`_seen`, `_items`); an exception carries the state reached when it was raised. -/',
+           'namespace FCA.Generated', '']
+    for name, args, params, names in spec:
+        m = _method(tree, 'Unique', name)
+        if [a.arg for a in m.args.args] != args:
+            raise Decline('Unique.%s: signature changed' % name)
+        lines = UniqueTr(names).block(_nodoc(m.body), '  ')
+        out += ['/-- `Unique.%s` -/' % name,
+                'def unique_%s (seen items : List Name) %s : Except (Err × UState) UState :=' % (name, params)] + lines + ['']
+    # membership and iteration read the two fields as the model assumes
+    for meth, want in (('__contains__', ['return item in self._seen']), ('__iter__', ['return iter(self._items)']),
+                       ('__len__', ['return len(self._items)'])):
+        got = [ast.unparse(s) for s in _nodoc(_method(tree, 'Unique', meth).body)]
+        if got != want:
+            raise Decline('Unique.%s changed: %r' % (meth, got))
+    return '\n'.join(out + ['end FCA.Generated', ''])
+
+
+GENERATORS = GENERATORS + (('Unique', gen_unique),)
